@@ -47,6 +47,8 @@ def to_call(ev):
         if n["kind"] == "decider":
             return {"kind": "decider", "conds": [{"cmp": c["cmp"], "a": val(c["a"], me), "b": val(c["b"], me), "ct": c["ct"]} for c in n["conds"]],
                     "ov": val(n["ov"], me), "copy": bool(n["copy"]), "out": n["out"]}
+        if n["kind"] == "use":
+            return {"kind": "use", "vals": [val(v, me) for v in n["vals"]]}
         return {"kind": "leaf"}
     ops = [node(n, i + 1) for i, n in enumerate(before)]
     amap = {n["id"]: n for n in after}
@@ -127,7 +129,8 @@ def validate_events(ctx, compiled, progs):
 
 _RUNNER = r'''
 import json, sys
-from dsl_compiler.src.ir.nodes import IRArith, IRConst, IRDecider, DeciderCondition, SignalRef
+from dsl_compiler.src.ir.nodes import (IRArith, IRConst, IRDecider, DeciderCondition, SignalRef, IRMemWrite, IRLatchWrite,
+                                       IREntityPropWrite)
 from dsl_compiler.src.ir.optimizer import CSEOptimizer
 inst = json.load(open(sys.argv[1]))
 TY = {"A": "signal-A", "B": "signal-B", "X": "signal-X"}
@@ -145,7 +148,8 @@ def nodes_out(ops):
     out = {}
     for op in ops:
         i = int(op.node_id[1:])
-        t = {b: a for a, b in TY.items()}.get(op.output_type, op.output_type)
+        ot = getattr(op, "output_type", None)
+        t = {b: a for a, b in TY.items()}.get(ot, ot)
         if isinstance(op, IRArith):
             out[i] = {"kind": "arith", "op": op.op, "l": ser(op.left), "r": ser(op.right), "out": t}
         elif isinstance(op, IRDecider):
@@ -154,6 +158,12 @@ def nodes_out(ops):
             else:
                 conds = [{"cmp": op.test_op, "a": ser(op.left), "b": ser(op.right), "ct": "or"}]
             out[i] = {"kind": "decider", "conds": conds, "ov": ser(op.output_value), "copy": bool(op.copy_count_from_input), "out": t}
+        elif isinstance(op, IRMemWrite):
+            out[i] = {"kind": "use", "vals": [ser(op.data_signal), ser(op.write_enable)]}
+        elif isinstance(op, IRLatchWrite):
+            out[i] = {"kind": "use", "vals": [ser(op.value), ser(op.set_signal), ser(op.reset_signal)]}
+        elif isinstance(op, IREntityPropWrite):
+            out[i] = {"kind": "use", "vals": [ser(op.value)]}
         else:
             out[i] = {"kind": "leaf"}
     return out
@@ -165,6 +175,16 @@ for it in inst:
             c = IRConst("n%d" % i, "signal-A" if i == 1 else "signal-B")
             c.value = i
             ops.append(c)
+        elif n["kind"] == "use":
+            vs = [val(v) for v in n["vals"]]
+            if len(vs) == 1:
+                e = IREntityPropWrite("e%d" % i, "enable", vs[0])
+            elif len(vs) == 2:
+                e = IRMemWrite("m%d" % i, vs[0], vs[1])
+            else:
+                e = IRLatchWrite("l%d" % i, vs[0], vs[1], vs[2], "sr_latch")
+            e.node_id = "n%d" % i
+            ops.append(e)
         elif n["kind"] == "arith":
             a = IRArith("n%d" % i, TY[n["out"]])
             a.op, a.left, a.right = n["op"], val(n["l"]), val(n["r"])
